@@ -16,6 +16,19 @@ def main(tier="quick", seed=1, replay=None):
     viol, known = statestore.adjudicate(PID, devs)
     rc = statestore.report(PID, viol, known)
     cov = dict(cov)
+    # typed views of every SSZ type (AsX constructors, struct.View()): accessors, Raw(), roots vs the TLC-computed value
+    import ssz
+    tstats, tviol, tknown, tnotes = ssz.run_typed_views(tier, seed)
+    rc = max(rc, ssz.report(PID, tviol, tknown, tnotes))
+    viol = viol + tviol
+    known = dict(known)
+    known.update(tknown)
+    cov["typed_views"] = {"cases": tstats["cases"], "probes_by_kind": ssz.probe_totals(tstats),
+                          "types_probed": len(tstats.get("probes", {}))}
+    cov["states"] += tstats["states"]
+    cov["transitions"] += tstats["transitions"]
+    cov["traces_validated_against_impl"] += tstats["cases"]
+    cov["evaluations"] += tstats["cases"]
     cov["known_findings_observed"] = {k: v[1] for k, v in known.items()}
     cov["exhaustive"] = "tiny instance only (see mc_exhaustive); fork-sized instances are sampled by TLC simulation"
     lib.write_evidence(PID, tier, seed, cov, time.time() - t0, violations=len(viol), assumptions=[
